@@ -181,7 +181,27 @@ func checkCmd(args []string) int {
 	nativeLog := ""
 	var nerr error
 	if !*noReplay {
-		nouts, nativeLog, nerr = eng.RunNative(L, filepath.Join(verifDir, "harness"), jobs, spec.Race)
+		var plain, racy []*eng.ReplayJob
+		for _, j := range jobs {
+			if j.ExpKind == "race" {
+				// race replays run genuinely parallel under the race detector
+				j.VisAll, j.Sched, j.Repeat = true, nil, 50
+				racy = append(racy, j)
+			} else {
+				plain = append(plain, j)
+			}
+		}
+		nouts, nativeLog, nerr = eng.RunNative(L, filepath.Join(verifDir, "harness"), plain, false)
+		for _, j := range racy {
+			o2, l2, e2 := eng.RunNative(L, filepath.Join(verifDir, "harness"), []*eng.ReplayJob{j}, true)
+			nativeLog += l2
+			if e2 != nil && nerr == nil {
+				nerr = e2
+			}
+			for k, v := range o2 {
+				nouts[k] = v
+			}
+		}
 	}
 	if nerr != nil {
 		fmt.Println("native replay failed:", nerr)
